@@ -115,6 +115,9 @@ def main():
             base = {"failed": sorted(failed), "passed": passed, "tail": tail}
             json.dump(base, open(bfile, "w", encoding="utf-8"))
             assert sh(f"git -C {wt} apply --whitespace=nowarn {patch}").returncode == 0
+        if not base["passed"]:
+            print(f"{name}: REJECTED the chosen tests did not run on the clean tree ({base['tail']!r}): check the test paths")
+            return 1
         failed, passed, tail = run_tests(wt, tests, f"chg-{name}")
         log.update({"tests": tests, "baseline": base["tail"], "with_change": tail})
         if failed is None or set(failed) != set(base["failed"]) or passed != base["passed"]:
